@@ -208,6 +208,49 @@ impl Gate {
     }
 }
 
+/// lets the harness hold the writer thread inside one `stream.flush()` call
+#[derive(Default)]
+pub struct FlushHold {
+    st: Mutex<(bool, bool)>, // (armed, in_flush)
+    cv: Condvar,
+}
+impl FlushHold {
+    pub fn arm(&self) {
+        self.st.lock().unwrap().0 = true;
+    }
+    pub fn wait_in_flush(&self, timeout: Duration) -> bool {
+        let mut s = self.st.lock().unwrap();
+        let deadline = Instant::now() + timeout;
+        while !s.1 {
+            let left = deadline.saturating_duration_since(Instant::now());
+            if left.is_zero() {
+                return false;
+            }
+            s = self.cv.wait_timeout(s, left).unwrap().0;
+        }
+        true
+    }
+    pub fn release(&self) {
+        let mut s = self.st.lock().unwrap();
+        s.0 = false;
+        self.cv.notify_all();
+    }
+    fn on_flush(&self) {
+        let mut s = self.st.lock().unwrap();
+        if !s.0 {
+            return;
+        }
+        s.1 = true;
+        self.cv.notify_all();
+        let deadline = Instant::now() + Duration::from_secs(10);
+        while s.0 && Instant::now() < deadline {
+            s = self.cv.wait_timeout(s, Duration::from_millis(100)).unwrap().0;
+        }
+        s.0 = false;
+        s.1 = false;
+    }
+}
+
 pub static REPORTS_SEEN: AtomicU64 = AtomicU64::new(0);
 
 /// recording, gated, result-scripted stream
@@ -220,6 +263,7 @@ pub struct BqStream {
     pub n_flush: usize,
     /// spin/yield perturbation inside callbacks (generated)
     pub jitter: Vec<u8>,
+    pub flush_hold: Option<Arc<FlushHold>>,
 }
 impl BqStream {
     pub fn new(results: Vec<SRes>, gate: Arc<Gate>, log: Arc<EventLog>) -> Self {
@@ -231,6 +275,7 @@ impl BqStream {
             n_next: 0,
             n_flush: 0,
             jitter: vec![],
+            flush_hold: None,
         }
     }
 }
@@ -282,6 +327,9 @@ impl EntryIoStream for BqStream {
         let i = self.n_flush;
         self.n_flush += 1;
         self.log.push(Ev::StreamFlush);
+        if let Some(h) = &self.flush_hold {
+            h.on_flush();
+        }
         if self.flush_ok.get(i).copied().unwrap_or(true) {
             Ok(())
         } else {
